@@ -1,0 +1,115 @@
+//go:build verif
+
+package tsdb
+
+import (
+	"github.com/lindb/lindb/kv"
+	"github.com/lindb/lindb/pkg/timeutil"
+)
+
+// Verification hooks of property C13 (every timestamp belongs to exactly one segment and one
+// family, at the level of the live Segment / DataFamily objects). No behaviour is added: the
+// callbacks run around the package's own constructor seams (newSegmentFunc, newDataFamilyFunc)
+// on the calling goroutine, the probes only TryLock/Unlock.
+
+// VerifC13SetOpenHooks wraps newSegmentFunc (called by intervalSegment.GetOrCreateSegment and
+// getOrLoadSegment) and newDataFamilyFunc (called by segment.initDataFamily): the before callbacks
+// run right before the real constructor, the after callbacks right after it and before the result
+// is handed back to (and stored by) the caller. restore puts the original seams back.
+func VerifC13SetOpenHooks(
+	beforeSegment func(shard Shard, segmentName string),
+	afterSegment func(shard Shard, segmentName string, seg Segment),
+	beforeFamily func(seg Segment, familyTime int64),
+	afterFamily func(seg Segment, familyTime int64, f DataFamily),
+) (restore func()) {
+	oldSeg, oldFam := newSegmentFunc, newDataFamilyFunc
+	newSegmentFunc = func(shard Shard, segmentName string, interval timeutil.Interval) (Segment, error) {
+		if beforeSegment != nil {
+			beforeSegment(shard, segmentName)
+		}
+		seg, err := oldSeg(shard, segmentName, interval)
+		if err == nil && afterSegment != nil {
+			afterSegment(shard, segmentName, seg)
+		}
+		return seg, err
+	}
+	newDataFamilyFunc = func(shard Shard, seg Segment, interval timeutil.Interval,
+		timeRange timeutil.TimeRange, familyTime int64, family kv.Family) DataFamily {
+		if beforeFamily != nil {
+			beforeFamily(seg, familyTime)
+		}
+		f := oldFam(shard, seg, interval, timeRange, familyTime, family)
+		if afterFamily != nil {
+			afterFamily(seg, familyTime, f)
+		}
+		return f
+	}
+	return func() { newSegmentFunc, newDataFamilyFunc = oldSeg, oldFam }
+}
+
+// VerifC13SegmentsLocked reports whether the mutex guarding the `segments` map of one of the
+// shard's interval segments (the writable one and the rollup targets) is held at this moment
+// (TryLock probe).
+func VerifC13SegmentsLocked(s Shard) bool {
+	sh, ok := s.(*shard)
+	if !ok {
+		return false
+	}
+	for _, seg := range sh.rollupTargets {
+		is, ok := seg.(*intervalSegment)
+		if !ok {
+			continue
+		}
+		if !is.mutex.TryLock() {
+			return true
+		}
+		is.mutex.Unlock()
+	}
+	return false
+}
+
+// VerifC13FamiliesLocked reports whether the mutex guarding the segment's `families` map is held
+// at this moment (TryLock probe).
+func VerifC13FamiliesLocked(seg Segment) bool {
+	sg, ok := seg.(*segment)
+	if !ok {
+		return false
+	}
+	if sg.mutex.TryLock() {
+		sg.mutex.Unlock()
+		return false
+	}
+	return true
+}
+
+// VerifC13RegisteredFamily returns the DataFamily object that is registered for the timestamp:
+// segments[GetSegment(t)].families[CalcFamily(t, base)] of the writable interval segment; nil if
+// the segment or the family is not registered. Pure observation (nothing is created or loaded).
+func VerifC13RegisteredFamily(s Shard, timestamp int64) DataFamily {
+	sh, ok := s.(*shard)
+	if !ok {
+		return nil
+	}
+	is, ok := sh.segment.(*intervalSegment)
+	if !ok {
+		return nil
+	}
+	calc := sh.interval.Calculator()
+	is.mutex.Lock()
+	registered, ok := is.segments[calc.GetSegment(timestamp)]
+	is.mutex.Unlock()
+	if !ok {
+		return nil
+	}
+	sg, ok := registered.(*segment)
+	if !ok {
+		return nil
+	}
+	sg.mutex.Lock()
+	defer sg.mutex.Unlock()
+	f, ok := sg.families[calc.CalcFamily(timestamp, sg.baseTime)]
+	if !ok {
+		return nil
+	}
+	return f
+}
